@@ -158,8 +158,8 @@ func c05Read(c *run.Ctx, m *mon.Meter, kind string, in []byte) {
 		}
 		entered = h.RemLen > 0 && len(in) >= h.Total()
 	}
+	done := hugeCall(c, "ReadPacket", in)
 	c05Budget(c, L)
-	c.CurrentBytes("ReadPacket", in)
 	m.Start()
 	res := mon.Read(bytes.NewReader(in))
 	m.Stop()
@@ -176,7 +176,8 @@ func c05Read(c *run.Ctx, m *mon.Meter, kind string, in []byte) {
 		c.Count("outcome", "ReadPacket/other", 1)
 	}
 	res = mon.ReadResult{}
-	collectAfterHuge(in)
+	c.SetHeapBudget(0)
+	done()
 }
 
 func c05Unmarshal(c *run.Ctx, m *mon.Meter, kind string, t int, body []byte) {
